@@ -439,10 +439,13 @@ def controls(repo):
             return isinstance(n, ast.Call) and getattr(n.func, 'id', '') == 'llh2xyz'
 
         def make(n):
-            n.args[2] = ast.Name(id='ell_ht', ctx=ast.Load())
+            # the given height is ignored: the point is always taken on the ellipsoid
+            # (handing `ell_ht` itself on would NOT be a defect: False is 0 in arithmetic - an earlier version of this control did that and
+            #  fired only through an unsound verdict of the engine, see DESIGN 11.11)
+            n.args[2] = ast.Constant(value=0)
             return n
         substitute(fn, pred, make, limit=1, expect=1)
-    out.append(('height-false-as-number', repo.variant({'geodepy/transform.py': replace_in_function(src, 'transform_mga2020_to_mga94', height_in)}), 'transform_mga2020_to_mga94', wire_only))
+    out.append(('height-ignored', repo.variant({'geodepy/transform.py': replace_in_function(src, 'transform_mga2020_to_mga94', height_in)}), 'transform_mga2020_to_mga94', wire_only))
     src3 = repo.sources['geodepy/statistics.py']
 
     def untransposed(fn):
